@@ -193,6 +193,7 @@ func checkC19(c *Ctx, r *Result, tier string) {
 	// ---- R19c -----------------------------------------------------------------------------------
 	c19Registry(c, r)
 	c19Wrap(c, r)
+	c19TrailingError(c, r)
 }
 
 // recoverCovers: fn registers, before any call, a deferred closure that recovers and assigns the named error result.
@@ -584,4 +585,67 @@ func c19Wrap(c *Ctx, r *Result) {
 		}
 	}
 	r.Floor("R19c-wrap", n, 1)
+}
+
+// ---- R19d: the trailing error is delivered for every arity -----------------------------------------
+
+// A Go function's last result of type error becomes the ECAL error. The delivery (the assertion
+// of a result value to error) may depend on the position being the last one and on the declared
+// result type, but not on how many results there are: a fact len(results) ≥ 2 at the delivery
+// site means a function whose only result is an error no longer raises it.
+func c19TrailingError(c *Ctx, r *Result) {
+	fnIface := c.Interface("util", "ECALFunction")
+	if fnIface == nil {
+		return
+	}
+	errT := types.Universe.Lookup("error").Type()
+	n := 0
+	for _, fn := range c.Implementations(fnIface, "Run") {
+		if c.PkgOf(fn) != "stdlib" {
+			continue
+		}
+		key := c.FuncKey(fn)
+		// the reflective call's result slice
+		var vals ssa.Value
+		allInstrs(fn, func(in ssa.Instruction) {
+			if call, ok := in.(*ssa.Call); ok {
+				if n := callName(call); n == "reflect.Value.Call" || n == "reflect.Value.CallSlice" {
+					vals = call
+				}
+				if f := call.Call.StaticCallee(); f != nil && c.modFuncSet[f] && c.PkgOf(f) == "stdlib" {
+					if _, isSlice := call.Type().Underlying().(*types.Slice); isSlice && strings.Contains(call.Type().String(), "reflect.Value") {
+						vals = call
+					}
+					if tup, isTup := call.Type().(*types.Tuple); isTup && tup.Len() > 0 && strings.Contains(tup.At(0).Type().String(), "reflect.Value") {
+						for _, ref := range *call.Referrers() {
+							if e, ok := ref.(*ssa.Extract); ok && e.Index == 0 {
+								vals = e
+							}
+						}
+					}
+				}
+			}
+		})
+		if vals == nil {
+			continue
+		}
+		ord := newOrdinals()
+		allInstrs(fn, func(in ssa.Instruction) {
+			ta, ok := in.(*ssa.TypeAssert)
+			if !ok || !types.Identical(ta.AssertedType, errT) {
+				return
+			}
+			n++
+			site := ord.key(key, "error-delivery", "")
+			pos := c.Pos(c.InstrPos(in))
+			if FactsAt(in).lenAtLeast(vals, 2) {
+				r.Instance("R19d", site, pos, "finding", "error delivered only when there are at least two results", true)
+				r.Report(Finding{Rule: "R19d", Site: site, Pos: pos,
+					Msg: key + ": the trailing Go error is turned into the ECAL error only on paths where the function has at least two results: a func(...) error (os.Remove, a validation function) returns its error as an ordinary value, the script continues and try/except never sees the failure"})
+				return
+			}
+			r.Instance("R19d", site, pos, "ok", "the delivery of the trailing error does not depend on the number of results", true)
+		})
+	}
+	r.Floor("R19d", n, 1)
 }
